@@ -6,6 +6,8 @@ import TdVerif.Gen.PyFuns
 import TdVerif.Model.SliceSpec
 import TdVerif.Model.Key
 import TdVerif.Model.Compile
+import TdVerif.Model.DualCoverage
+import TdVerif.Gen.DualHelpers
 
 namespace TdVerif.Props.C18
 open TdVerif TdVerif.Key
@@ -106,5 +108,16 @@ theorem items_list_branches_agree (ks : List String) (vs : List Int) (sk : List 
 
 example : valuesDict ["a", "b"] [1, 2] ["b", "a"] = some [2, 1] := by decide
 example : valuesIndex ["a", "b"] [1, 2] ["b", "zz"] = none := by decide
+
+end TdVerif.Props.C18
+
+namespace TdVerif.Props.C18
+
+/-- Every function of the current source that has a compile-only branch is accounted for: it is
+either modelled on both branches (theorems above) or listed as differential-only. A new
+`is_compiling()` site makes this fail, so the tie to the source cannot silently lose a dual helper. -/
+theorem dual_helpers_accounted :
+    ∀ f ∈ Gen.dualHelpers, f ∈ DualCoverage.modelled ∨ f ∈ DualCoverage.differentialOnly := by
+  decide +kernel
 
 end TdVerif.Props.C18
